@@ -294,8 +294,12 @@ def build_dissim(dspec):
     if k == "combined":
         pos = None if dspec.get("pos") is None else pa.PositionalSporadicDissimilarity(dspec["pos"]["delta"])
         cat = None if dspec.get("cat") is None else build_dissim(dspec["cat"])
-        return pa.CombinedCategoricalDissimilarity(alpha=dspec["alpha"], beta=dspec["beta"], delta_empty=d,
-                                                   pos_dissim=pos, cat_dissim=cat)
+        kwargs = {}            # components that are not given are OMITTED (the signature's defaults apply), not passed as None
+        if pos is not None:
+            kwargs["pos_dissim"] = pos
+        if cat is not None:
+            kwargs["cat_dissim"] = cat
+        return pa.CombinedCategoricalDissimilarity(alpha=dspec["alpha"], beta=dspec["beta"], delta_empty=d, **kwargs)
     raise ValueError(k)
 
 
